@@ -43,6 +43,7 @@ type passJob struct {
 	Passes  []jPass   `json:"passes"`
 	Yaml    string    `json:"yaml"`   // when set, passes are loaded through the real YAML loader instead
 	Direct  bool      `json:"direct"` // call each pass's Process directly instead of Passes.Process (no DeepCopy)
+	Lang    string    `json:"lang"`   // when set, the passes are the built-in chain of that output language
 }
 
 func objRefs(refs [][]string) []compiler.ObjectReference {
@@ -383,6 +384,8 @@ func init() {
 					if err != nil {
 						return "YAMLERR\t" + strings.ReplaceAll(err.Error(), "\n", " ")
 					}
+				} else if job.Lang != "" {
+					passes = languageChain(job.Lang)
 				} else {
 					for _, jp := range job.Passes {
 						passes = append(passes, buildPass(jp))
